@@ -265,11 +265,11 @@ Definition int_const_text (abs_threshold : bool) (v : Z) : option (list Z) :=
 
 (* unop_node: "-" in front of an integer literal becomes a new literal text
    repaired = false:  str(-str_to_number(value))
-   repaired = true :  the same formatter as in generate_evaluation_code *)
+   repaired = true :  (hex if abs(v) > 2**64 else str)(v)  with v = -str_to_number(value) *)
 Definition negated_literal_text (repaired : bool) (s : list Z) : option (list Z) :=
   match str_to_number s with
   | None => None
-  | Some v => if repaired then int_const_text true (- v) else py_str (- v)
+  | Some v => if repaired && (Z.abs (- v) >? 2 ^ 64) then Some (py_hex (- v)) else py_str (- v)
   end.
 
 (* Code.generate_num_constants.to_base32 *)
